@@ -44,6 +44,8 @@ CORPUS = [
     ("duckdb", "SELECT a FROM t QUALIFY b"),
     ("snowflake", "SELECT a:b::INT"),
     ("tsql", "SELECT TOP 1 [a] FROM t"),
+    # statements whose parser builds a keyword list token by token and falls back to Command
+    ("", "GRANT SELECT ON t TO u"),
 ]
 
 
